@@ -177,8 +177,16 @@ Proof. unfold has_col. induction cols as [|c r IH]; [reflexivity|]. cbn [map exi
 Lemma fold_ext {A B} (f g : A -> B -> A) l : (forall a b, f a b = g a b) -> forall a, fold_left f l a = fold_left g l a.
 Proof. intros H. induction l as [|x l IH]; intros a; [reflexivity|]. cbn [fold_left]. rewrite H. apply IH. Qed.
 
+Lemma order_row_B so r : order_row so (map as_B_pair r) = map as_B_pair (order_row so r).
+Proof.
+  assert (H : forall j l, filter (in_phase so j) (map as_B_pair l) = map as_B_pair (filter (in_phase so j) l)).
+  { intros j l. induction l as [|p l IH]; [reflexivity|]. cbn [map filter].
+    assert (Hp : in_phase so j (as_B_pair p) = in_phase so j p) by (unfold in_phase; rewrite target_B; reflexivity).
+    rewrite Hp. destruct (in_phase so j p); cbn [map]; rewrite IH; reflexivity. }
+  unfold order_row. rewrite !H, !map_app. reflexivity.
+Qed.
 Lemma site_row_B d st lab r : site_row E d st lab (map as_B_pair r) = site_row E d st lab r.
-Proof. unfold site_row. rewrite row_status_B, (run_row_B r (init_atom E)). reflexivity. Qed.
+Proof. unfold site_row. rewrite row_status_B, order_row_B, (run_row_B (order_row the_setter_order r) (init_atom E)). reflexivity. Qed.
 Lemma aniso_row_B sb lab r : aniso_row E sb lab (map as_B_pair r) = aniso_row E sb lab r.
 Proof.
   unfold aniso_row. destruct sb as [st stopped]. destruct stopped; [reflexivity|].
